@@ -98,7 +98,6 @@ where
     /// Set the capacity of the store.
     pub fn with_capacity(mut self, capacity: usize) -> Self {
         self.capacity = capacity;
-        self.without_reducer = false;
         self
     }
 
